@@ -34,6 +34,19 @@ def strategy(tier):
         part = draw(st.sampled_from(["A", "A", "B"]))
         s1 = draw(st.integers(0, 2 ** 32 - 1))
         s2 = draw(st.integers(0, 2 ** 32 - 1).filter(lambda v: v != s1))
+        if part == "A" and draw(st.integers(0, 5)) == 0:
+            # a very large population in tau-leap mode: a single leap expects billions of events per transition
+            k1, k2 = draw(S.fl(0.2, 1.5, 3)), draw(S.fl(0.2, 1.5, 3))
+            m = {"state_decl": [{"name": "A", "lims": None}, {"name": "B", "lims": None}], "state_style": "list",
+                 "params": ["k1", "k2"], "param_style": "list", "derived": [], "odes": [],
+                 "events": [{"rate": ir.mul(ir.P("k1"), ir.S("A")), "rate_kind": "linear",
+                             "trans": [{"kind": "T", "o": "A", "d": "B", "mag": {"int": 1}}]},
+                            {"rate": ir.mul(ir.P("k2"), ir.S("B")), "rate_kind": "linear",
+                             "trans": [{"kind": "D", "o": "B", "d": None, "mag": {"int": 1}}]}]}
+            su = {"x0": [draw(st.sampled_from([10 ** 11, 10 ** 12, 10 ** 13])), 0], "theta": [k1, k2], "t0": 0.0,
+                  "horizon": S.sig(draw(S.fl(0.2, 0.6, 2)) / k1, 3), "np_seed": 0}
+            return {"part": "A", "model": m, "setup": su, "seeds": [s1, s2], "iters": draw(st.integers(1, 2)),
+                    "exact": False, "grid_n": draw(st.sampled_from([0, 0, 5])), "large": True}
         if part == "A":
             m = draw(S.event_model())
             su = draw(S.stochastic_setup(m))
@@ -90,6 +103,8 @@ def oracle(case, rec):
     m, su = case["model"], case["setup"]
     s1, s2 = case["seeds"]
     rec.label("part:" + case["part"])
+    if case.get("large"):
+        rec.label("population:1e11-1e13")
     if case["part"] == "A":
         exact = case["exact"]
         model, order = stoch.prepare(m, su)
